@@ -963,12 +963,6 @@ class Judge:
             if gsizes is None:
                 self.fail('C17/bind/block-split-into-several-bundles', pseudo,
                           n_packets=len(got), issued_messages=issued)
-            single = sum(gsizes) - 16 * (len(got) - 1)
-            if single <= 0.92 * Capture.MAX_DGRAM:
-                self.fail('C17/bind/block-split-into-several-bundles', pseudo,
-                          n_packets=len(got), issued_messages=issued,
-                          single_bundle_bytes=single,
-                          got=_clip([g.plain() for g, _ in got]))
         if gsizes and max(gsizes) > Capture.MAX_DGRAM:
             self.fail('C17/bind-clumped/datagram-larger-than-documented-bound', pseudo,
                       sizes=gsizes[:20], bound=Capture.MAX_DGRAM)
@@ -987,6 +981,13 @@ class Judge:
                           first_on_wire=[_show(x) for x in msgs[:3]])
             self.fail('C17/bind/bundle-size-differs-from-issued-messages', pseudo,
                       issued_messages=issued, bundle=_clip(whole.plain()))
+        if len(got) > 1:
+            single = sum(gsizes) - 16 * (len(got) - 1)
+            if single <= 0.92 * Capture.MAX_DGRAM:
+                self.fail('C17/bind/block-split-into-several-bundles', pseudo,
+                          n_packets=len(got), issued_messages=issued,
+                          single_bundle_bytes=single,
+                          got=_clip([g.plain() for g, _ in got]))
         # every element must belong to an operation of the block
         pos = 0
         for rec in recs:
